@@ -56,7 +56,7 @@ T = {
          "Decides for every finite raw value: softplus-reparameterised scales/diagonals/df are > 0, min-scale and min-derivative floors, planar w.u > -1 by the rational identity, weight-norm axis agreement, mixture weights through log_softmax, every spline bin has a positive floor; BijectionReparam stores inverse and applies transform; documented rejections exist, are boundary-inclusive and their result is consumed; the conditioner's parameter vector treats NonTrainable nodes as static leaves and the class non_trainable wraps arrays in is one every partition's is_leaf recognises (the min_scale floor stays a constant). "
          "Does NOT decide float under/overflow at the edge of the stated box.", "3 C11"),
  "C12": ("who-must-call / dominance over the call graph + sibling agreement of the four parameter partitions",
-         "Decides: every public entry point unwraps before touching fields; unwrap is recursive and wrapper-free; vectorised unwrap maps every array leaf; wrappers without vectorised unwrap address trailing axes only; NonTrainable applies stop_gradient; the four trainable-parameter partitions agree on filter and is_leaf and recombine with the same static. "
+         "Decides: every public entry point unwraps before touching fields; no bijection / distribution / wrapper constructor stores its argument unwrapped and merge_chains keeps wrapper members (partial evaluation on nesting shapes); unwrap is recursive and wrapper-free; vectorised unwrap maps every array leaf; wrappers without vectorised unwrap address trailing axes only; NonTrainable applies stop_gradient; the four trainable-parameter partitions agree on filter and is_leaf and recombine with the same static. "
          "Does NOT decide bit-identity after an actual run or equinox's vmapped-construction semantics.", "3 C12"),
  "C13": ("class-table coverage of the installation hook + exact-comparison and who-must-call rules",
          "Decides: the hook wraps exactly the abstract interface methods and every concrete class obtains each of the four from a class body (112 obligations); installed checks compare whole shape tuples exactly with `is not None` tests (no truthiness on shapes), failing branches raise, checked values are forwarded; constructors call their validators and validators raise on the documented predicate with tuple (non-broadcasting) comparisons - compared as raise-sets (propositionally exact over the atomic tests) when the guards are spelled differently; validators are called on the children's shapes / condition shapes respectively; TriangularAffine broadcasts loc to (dim,) (what rejects a location that does not fit). "
